@@ -23,6 +23,18 @@ CHECKS = {
    note="map order is owned through build-time instrumentation (go build -overlay); the args marker and env entries without '=' are outside the alphabet"),
 }
 
+CHECKS.update({
+ "C06": dict(level="model_checking", ref="4 C06", technique="exhaustive enumeration (all 8192 masks, index multisets x registration orders, veto positions, event sequences) + stateless schedule exploration (cooperative scheduler, preemption-bounded DFS) of concurrent runtime callers on the real Adaptation",
+   text="(1) every one of the 8192 subscription masks is installed through the real configure step and each of the 13 lifecycle calls is issued: the plugin is invoked iff subscribed, exactly once; every event sequence of length <= 3 against boundary masks; (2) every index sequence over {00,05,10,50,99} up to 3 (4) plugins in every registration order: invocation non-decreasing in index; a handler error at every position vetoes and stops the chain; (3) every interleaving of 2-3 concurrent runtime callers (lock operations and handler entries are scheduling points) within 3 (8) preemptions: exactly once per request in index order, one common order over all plugins, each caller gets the result of its own request, no deadlock.",
+   note="plugins are in-process fakes at the pluginType seam; pkg/adaptation is rebuilt with sync routed through the scheduler (go build -overlay); registration timing is explored by the C08 scenario; a free-running pass of the same bodies is included for the race detector"),
+ "C10": dict(level="model_checking", ref="4 C10", technique="stateless model checking of the real multiplexer under a cooperative scheduler: deviation-bounded DFS over thread interleavings, select-case choices, map orders and short reads",
+   text="pkg/net/multiplex and pkg/net/conn.go are rebuilt with every lock, once, channel operation, select, goroutine start and map range under scheduler control and a frame limit of 16 bytes; five scenarios (1-3 ids, concurrent writers on the same and on different ids, both directions, payload sizes 0..2*max+3, short reads, default and small queue) are explored over every execution within 2 (3) deviations; each reader must receive exactly an order-preserving merge of the whole payloads written to its id and every thread must terminate.",
+   note="trunk is an in-memory pipe owned by the harness; the frame limit is shrunk by a build-time constant rewrite; bounds are reported per scenario in the evidence"),
+ "C11": dict(level="model_checking", ref="4 C11", technique="stateless model checking of the real multiplexer with faults as explorer choices (trunk cut after every byte count of every write, Close at every scheduling point, queue overflow), deviation-bounded DFS",
+   text="Same instrumented build as C10. Scenarios: trunk severed after k bytes of any trunk write (every k, either direction), Mux.Close / conn.Close / listener.Close by 1-3 concurrent closers at every moment of in-flight traffic, queue overflow with a reader that stops; on every execution within the bound each reader's frames are a prefix of what was sent, no thread stays blocked, later Read/Write return errors (EOF after orderly close), nothing panics, Accept hands the connection out once and returns EOF after close.",
+   note="as C10; a worker process killed by the Go runtime's unrecoverable out-of-memory (garbage frame length) is attributed to the journalled execution"),
+})
+
 NOT_YET = {}
 
 def main():
